@@ -187,6 +187,6 @@ def strat_system():
 def phases(tier):
     quick = tier == 'quick'
     return [
-        Phase('lattice', check_scripted, gen=with_rep(gen_lattice(4 if quick else 7, 2 if quick else 3)), exhaustive=True),
+        Phase('lattice', check_scripted, gen=SC.with_history(with_rep(gen_lattice(4 if quick else 7, 2 if quick else 3))), exhaustive=True),
         Phase('equation-systems', check_system, strategy=strat_system, examples=1500 if quick else 40000),
     ]
